@@ -16,6 +16,7 @@
               env    VL [VN has_listener; VL [VL [VB id; VL [] | VL [ftree]] ...]]
               doc    VL [VN 0; VB text] | VL [VN 1; VB name; attrs; VL kids]            *)
 From NC Require Import Model.Base Model.SaxFilter Spec.Projection Model.JunosParse Model.JunosSax.
+From NC Require Import Model.Framing11 Model.JunosParse11.
 
 Definition dec_attrs (v : val) : attrs :=
   match v with
@@ -102,6 +103,25 @@ Definition run_driver (w : world) (stream : bytes) (lens : list nat) : val :=
   let (l, sf) := run_obs (sx_init w) (segments stream lens) in
   VL [VL l; VL (map (fun o => VL [vbool (fst o); VB (snd o)]) (outs sf)); VL (map VB (fed sf))].
 
+(* base:1.1 (Model/JunosParse11.v): after each read the framing side (buffer, chunks of the message in progress) and
+   the number of messages dispatched; kind 5 = running, 2 = an exception left parse() *)
+Definition enc_obs11 (s : dst world * pst11) : val :=
+  let no := VN (N.of_nat (length (douts (fst s)))) in
+  match ddead (fst s) with
+  | Some e => VL [VN 2; VN e; VB []; VB []; no]
+  | None => VL [VN 5; VN 0; VB (buf11 (snd s)); VB (frags11 (snd s)); no]
+  end.
+
+Fixpoint run_obs11 (s : dst world * pst11) (reads : list bytes) : list val * (dst world * pst11) :=
+  match reads with
+  | [] => ([], s)
+  | r :: rs => let s' := sx_parse11 s r in let (l, sf) := run_obs11 s' rs in (enc_obs11 s' :: l, sf)
+  end.
+
+Definition run_driver11 (w : world) (stream : bytes) (lens : list nat) : val :=
+  let (l, sf) := run_obs11 (sx_init11 w) (segments stream lens) in
+  VL [VL l; VL (map (fun o => VL [vbool (fst o); VB (snd o)]) (douts (fst sf))); VL (map VB ([] :: dfed (fst sf)))].
+
 Definition run (v : val) : val :=
   match v with
   | VL [VN 1; e; VL evs] =>
@@ -113,5 +133,7 @@ Definition run (v : val) : val :=
   | VL [VN 3; VB s] => VL [VB (escape s); VB (quoteattr s)]
   | VL [VN 4; w; VB stream; VL cutsets] =>
       let wd := dec_world w in VL (map (fun c => run_driver wd stream (dec_lens c)) cutsets)
+  | VL [VN 5; w; VB stream; VL cutsets] =>
+      let wd := dec_world w in VL (map (fun c => run_driver11 wd stream (dec_lens c)) cutsets)
   | _ => verr 1
   end.
